@@ -2,6 +2,7 @@
 Stage D, part 9: the work-list loop on models with logic values and bare assertions.
 -/
 import Rooc.Proofs.LinD8
+import Rooc.Proofs.LinDef3
 
 set_option linter.unusedSectionVars false
 set_option linter.unusedSimpArgs false
@@ -113,24 +114,35 @@ theorem normalize_semD {d : List (DomVar (Ext K))} {S : String → Prop} {lhs rh
     · have h' : (match cmpHolds (Arith.zero : Ext K) cmp' (Ext.fin k), cmpHolds (Arith.one : Ext K) cmp' (Ext.fin k) with
           | false, true => some (Normalized.assertion e' true)
           | true, false => some (Normalized.assertion e' false)
-          | true, true => some Normalized.tautology
-          | false, false => some Normalized.contradiction) = some nz := by
+          | true, true => if Exp.mayBeUndefined e' then none else some Normalized.tautology
+          | false, false => if Exp.mayBeUndefined e' then none else some Normalized.contradiction) = some nz := by
         cases e' with
         | num v => exact absurd ⟨v, rfl⟩ hnum
         | _ => exact h
       simp only [ar_zero, ar_one, cmpHolds_fin] at h'
       have htr : ∀ t : Bool, HasTruth e' t ρ ↔ x = ofBool t := by
         intro t; simp [HasTruth, hx]
-      split at h' <;> simp at h' <;> subst h' <;> simp only [NormSemD, hcmp]
-      all_goals rename_i h0 h1
-      · refine ⟨hwhich, ?_⟩
+      split at h'
+      · rename_i h0 h1
+        simp at h'; subst h'; simp only [NormSemD, hcmp]
+        refine ⟨hwhich, ?_⟩
         rw [htr]
         rcases h01 with rfl | rfl <;> simp [h0, h1, ofBool]
-      · refine ⟨hwhich, ?_⟩
+      · rename_i h0 h1
+        simp at h'; subst h'; simp only [NormSemD, hcmp]
+        refine ⟨hwhich, ?_⟩
         rw [htr]
         rcases h01 with rfl | rfl <;> simp [h0, h1, ofBool]
-      · rcases h01 with rfl | rfl <;> simp [h0, h1]
-      · rcases h01 with rfl | rfl <;> simp [h0, h1]
+      · rename_i h0 h1
+        split at h'
+        · simp at h'
+        · simp at h'; subst h'; simp only [NormSemD, hcmp]
+          rcases h01 with rfl | rfl <;> simp [h0, h1]
+      · rename_i h0 h1
+        split at h'
+        · simp at h'
+        · simp at h'; subst h'; simp only [NormSemD, hcmp]
+          rcases h01 with rfl | rfl <;> simp [h0, h1]
 
 /-! ### one loop step -/
 
@@ -145,12 +157,14 @@ theorem constraintHolds_assert {c : Constraint (Ext K)} (hc : c.isAssert = true)
 theorem step_srcD {d0 : List (DomVar (Ext K))} {c : Constraint (Ext K)} {s : St (Ext K)}
     {r : Unit × St (Ext K)} (hinv : LoopInvD d0 s) (hc : SrcD d0 c) (h : processConstraint c s = .ok r) :
     LoopInvD d0 r.2 ∧ StepOK s r.2 (fun ρ => constraintHolds ρ c = true) := by
+  -- definedness of the sides is a consequence of the successful iteration
+  have hdef := fun (ρ : String → K) (hd : DomSat ρ d0) => process_defined h hc ρ hd
+  have gl : GoodE d0 c.lhs := hc.lhs.withDef (fun ρ hd => def_iff_exists.mp (hdef ρ hd).1)
   unfold processConstraint at h
   simp only [bind_ok, simplifyFlat_ok] at h
   obtain ⟨lhs', s1, ⟨fl1, hf1, h1⟩, rhs', s2, ⟨fl2, hf2, h2⟩, h3⟩ := h
   cases h1; cases h2
-  obtain ⟨hl', hevl⟩ := (hinv.good hc.lhs).normalize hf1
-  obtain ⟨hr', hevr⟩ := (hinv.good hc.rhs).normalize hf2
+  obtain ⟨hl', hevl⟩ := (hinv.good gl).normalize hf1
   obtain ⟨u, s'⟩ := r
   by_cases hA : c.isAssert = true
   · -- a bare assertion
@@ -161,6 +175,8 @@ theorem step_srcD {d0 : List (DomVar (Ext K))} {c : Constraint (Ext K)} {s : St 
     rw [constraintHolds_assert hA, HasTruth, hevl ρ hs.dom]
     simp [ofBool]
   · have hA' : c.isAssert = false := by simpa using hA
+    have gr : GoodE d0 c.rhs := hc.rhs.withDef (fun ρ hd => def_iff_exists.mp ((hdef ρ hd).2 hA'))
+    obtain ⟨hr', hevr⟩ := (hinv.good gr).normalize hf2
     simp only [hA', Bool.false_eq_true, if_false] at h3
     -- the meaning of the comparison through the normalised sides
     have hmean : ∀ ρ : String → K, Sat ρ s → (constraintHolds ρ c = true ↔
